@@ -160,7 +160,6 @@ func startsWithMetaLiteral(re *syntax.Regexp) (rune, bool) {
 // before the text is cut there.
 func (c *Ctx) RuleEscMatch() *Result {
 	res := &Result{Rule: "ESC-MATCH", MinInst: 2}
-	tab := c.Rx()
 	for _, fn := range c.P.RepoFns {
 		if load.ShortPkg(load.FnPkgPath(fn)) != "regex/operators" {
 			continue
@@ -170,10 +169,17 @@ func (c *Ctx) RuleEscMatch() *Result {
 			if !ok {
 				return
 			}
-			p, _ := tab.Resolve(recv)
-			if p == nil {
-				return
+			for _, p := range c.ResolveAll(recv, fn, 0) {
+				c.escMatchOne(res, fn, call, m, p)
 			}
+		})
+	}
+	return res
+}
+
+func (c *Ctx) escMatchOne(res *Result, fn *ssa.Function, call *ssa.Call, m string, p *Pattern) {
+	func() {
+		{
 			meta, isMeta := startsWithMetaLiteral(p.Re)
 			if !isMeta {
 				return
@@ -266,6 +272,16 @@ func (c *Ctx) RuleEscMatch() *Result {
 						isCut, text = true, x.X
 					case *ssa.Call:
 						sf := staticFn(&x.Call)
+						if _, isFnParam := x.Call.Value.(*ssa.Parameter); isFnParam && sf == nil && !x.Call.IsInvoke() {
+							// a rewrite callback handed to a shared scan loop: it cuts the text at the position
+							isCut = true
+							for _, a := range x.Call.Args {
+								if bt, ok := a.Type().Underlying().(*types.Basic); ok && bt.Kind() == types.String {
+									text = a
+									break
+								}
+							}
+						}
 						if sf != nil && c.P.IsRepoFn(sf) {
 							if isEscapedLike(sf) {
 								// the escape test itself: position must be absolute in the text it is asked about
@@ -310,9 +326,8 @@ func (c *Ctx) RuleEscMatch() *Result {
 			} else {
 				res.ok(key, pos, fmt.Sprintf("%d cut(s), each only reached when IsEscaped(text, position) is false", cuts))
 			}
-		})
-	}
-	return res
+		}
+	}()
 }
 
 // RuleScanBound: a character scan is bounded by the text.
@@ -618,6 +633,16 @@ func (c *Ctx) passKind(fn *ssa.Function) string {
 			_ = call
 			if p, _ := tab.Resolve(recv); p != nil && strings.Contains(p.Src, `\(\?[`) {
 				kinds["flags"] = true
+			}
+		}
+		// a pattern handed to a shared scan helper
+		if cc := callCommon(in); cc != nil {
+			for _, arg := range cc.Args {
+				if isRegexpPtr(arg) {
+					if p, _ := tab.Resolve(arg); p != nil && strings.Contains(p.Src, `\(\?[`) {
+						kinds["flags"] = true
+					}
+				}
 			}
 		}
 		if call, ok := in.(*ssa.Call); ok {
